@@ -125,6 +125,14 @@ class RecListener(plumpy.ProcessListener):
         self.run.rec.ev(self.channel, name, _jsonable(list(info)), plumpy.Process.current() is proc)
         if self.channel == 'listener':
             self.run._trigger(['listener', name, n])
+        if self.raising == 'checkpointing' and name in ('finished', 'killed', 'excepted'):
+            # an observer that checkpoints the process when it is told about the ending; the process's own save fails (before it
+            # reaches the base class), which the observer copes with: nobody raises towards the process
+            proc._fail_save = RuntimeError('this process cannot be saved just now')
+            try:
+                plumpy.Bundle(proc)
+            except RuntimeError:
+                self.run.rec.ev(self.channel + '-save-failed', name)
         if self.raising is True or (self.raising == 'terminal' and name in ('finished', 'killed', 'excepted')):
             # a broken observer: plumpy logs this and carries on with the other listeners
             if name in ('finished', 'killed', 'excepted') and self.channel != 'listener':
@@ -376,7 +384,7 @@ class Run:
                 proc.add_cleanup(_FailingCleanup())
             if case.get('listener', True):
                 # ('raising-terminal': broken only in its handling of the three endings)
-                raising = {'raising': True, 'raising-terminal': 'terminal'}.get(case.get('listener'), False)
+                raising = {'raising': True, 'raising-terminal': 'terminal', 'checkpointing': 'checkpointing'}.get(case.get('listener'), False)
                 self.listener = RecListener(self, raising=raising)
                 proc.add_process_listener(self.listener)
                 if case.get('listener') == 'twice':
